@@ -77,6 +77,9 @@ class _Fold(ast.NodeTransformer):
             fn = {ast.Eq: operator.eq, ast.NotEq: operator.ne, ast.Lt: operator.lt, ast.LtE: operator.le, ast.Gt: operator.gt, ast.GtE: operator.ge}.get(type(n.ops[0]))
             if fn is not None:
                 return ast.copy_location(ast.Constant(value=bool(fn(a, b))), n)
+        # the result of arithmetic, a display, a comprehension or an f-string is an object, never None
+        if len(n.ops) == 1 and isinstance(n.ops[0], (ast.Is, ast.IsNot)) and isinstance(n.comparators[0], ast.Constant) and n.comparators[0].value is None and isinstance(n.left, (ast.BinOp, ast.List, ast.Tuple, ast.Dict, ast.Set, ast.ListComp, ast.DictComp, ast.SetComp, ast.GeneratorExp, ast.JoinedStr, ast.Lambda)):
+            return ast.copy_location(ast.Constant(value=isinstance(n.ops[0], ast.IsNot)), n)
         if len(n.ops) == 1 and isinstance(n.left, ast.Constant) and isinstance(n.comparators[0], ast.Constant):
             a, b, op = n.left.value, n.comparators[0].value, n.ops[0]
             simple = lambda v: v is None or isinstance(v, (bool, int, str))
